@@ -122,8 +122,8 @@ impl Property for C02 {
     }
     fn cases(&self, tier: Tier) -> u32 {
         match tier {
-            Tier::Quick => 6000,
-            Tier::Thorough => 80000,
+            Tier::Quick => 50_000,
+            Tier::Thorough => 500_000,
         }
     }
     fn rule(&self) -> String {
